@@ -19,6 +19,17 @@ Verdict(e) ==
     \* a component whose datatype the profile replaces by another complex one: <field>_<j>_<k> designates the k-th part
     \* of the PROFILE's datatype
     [] e.k = "pos" -> IF e.got # e.want THEN "positional_path_does_not_follow_the_profile_datatype" ELSE "ok"
+    \* a complex component of a message PARSED with the profile (both levels), filled in and validated on its own:
+    \* subs = <<name, min, max, count, profile datatype, datatype found>>
+    [] e.k = "below" ->
+         LET want == {<<"missing", e.subs[i][1]>> : i \in {j \in 1..Len(e.subs) : e.subs[j][4] < e.subs[j][2]}}
+                     \cup {<<"limit", e.subs[i][1]>> : i \in {j \in 1..Len(e.subs) : e.subs[j][3] # -1 /\ e.subs[j][4] > e.subs[j][3]}}
+             got == {<<e.errors[i][1], e.errors[i][2]>> : i \in 1..Len(e.errors)}
+         IN IF e.outcome # "ok" THEN "creation_path_raised"
+            ELSE IF \E i \in 1..Len(e.subs) : e.subs[i][5] # "" /\ e.subs[i][5] # e.subs[i][6]
+                 THEN "child_has_the_standard_datatype_not_the_profile_one"
+            ELSE IF got # want THEN "validate_of_a_parsed_part_does_not_follow_the_profile"
+            ELSE "ok"
     [] e.k = "same" -> IF e.with # e.without THEN "restated_profile_changes_behaviour" ELSE "ok"
     [] e.k = "exc" -> IF e.got # e.want THEN "wrong_exception_for_unusable_profile" ELSE "ok"
 Init == l = 1 /\ nontriv = 0 /\ failed = 0
